@@ -9,6 +9,7 @@ P_putput  == [s \in {1, 2} |-> IF s = 1 THEN <<PutR("f", "c1", "c2")>> ELSE <<Pu
 P_putget  == [s \in {1, 2} |-> IF s = 1 THEN <<PutR("f", "c1", "c2")>> ELSE <<GetR("f")>>]
 P_putdel  == [s \in {1, 2} |-> IF s = 1 THEN <<PutR("f", "c1", "c2")>> ELSE <<DelR("f", "c1"), GetR("f")>>]
 P_badput  == [s \in {1, 2} |-> IF s = 1 THEN <<BadPut("f", "c1", "c2")>> ELSE <<PutR("f", "c1", "c3"), GetR("f")>>]
+P_badsame == [s \in {1, 2} |-> IF s = 1 THEN <<BadPut("f", "c1", "c2")>> ELSE <<PutR("f", "c1", "c2"), GetR("f")>>]   \* same path, same DECLARED hash, one liar
 P_create  == [s \in {1, 2} |-> IF s = 1 THEN <<PutR("g", "none", "c2")>> ELSE <<PutR("g", "none", "c2"), DelR("g", "c2")>>]
 c_Init0 == (Live("f") :> "c1")
 =============================================================================
